@@ -61,6 +61,8 @@ def rot(cs, i):
 def hostile(rnd, tag, n=None, m=None, integer=False, big=1):
     """One profile of hostile class `tag` (untied rankings). Returns (spec, m_hint).  big > 1 multiplies the electorate of
     the 'quota' and 'coalition' classes (exact-quota structure at ~10^9..10^18 voters)."""
+    if big > 1:
+        _slice("slice_big_electorate_profiles")
     n = n or rnd.randint(2, 6)
     cs = cands(rnd, n)
     wk = "int" if integer else rnd.choice(["int", "rat"])
@@ -165,12 +167,18 @@ BIGNAMES = NAMES + ["k%d" % i for i in range(1, 13)]
 W_HUGE = [F(10 ** 9), F(2 ** 53 + 1), F(10 ** 15 + 7), F(10 ** 18), F(10 ** 9 + 7), F(2 ** 53 - 1)]
 W_TINY = [F(1, 10 ** 9), F(1, 10 ** 12 + 39), F(3, 2 ** 60), F(7, 10 ** 9 + 7)]
 SCALE_P = 0.04  # share of beyond-hand-size profiles in the mixed generators
+SLICES = {}  # how many profiles of each shared slice this process generated (merged into the monitor counters by vk.worker)
+
+
+def _slice(name):
+    SLICES[name] = SLICES.get(name, 0) + 1
 
 
 def scale(rnd, integer=False, mode=None, maxmiss=None):
     """Beyond-hand-size untied profile: 8..12 candidates (double-digit round numbers under single-winner counts), 30..80
     ballots drawn around a few base orders so that transfers are long, weights plain / huge (>= 10^9, beyond 2^53) / tiny
     (<= 10^-9).  Returns (spec, m)."""
+    _slice("slice_scale_profiles")
     n = rnd.randint(8, 12)
     cs = rnd.sample(BIGNAMES, n)
     nb = rnd.randint(30, 80)
@@ -213,6 +221,7 @@ def magnify(rnd, spec, mode=None):
     it applies to ranked and scored ballots alike."""
     from .canon import pf, fs
     mode = mode or rnd.choice(["scale", "+1", "+1", "shift", "shift", "gap", "gapshift"])
+    _slice("slice_magnified_profiles")
     bl = [dict(b) for b in spec["ballots"]]
     if not bl:
         return spec
@@ -246,6 +255,7 @@ def magnify(rnd, spec, mode=None):
 def rescaled(spec, factor):
     """every weight multiplied by the same exact factor (shares, ties and every scale-free answer are unchanged)"""
     from .canon import pf, fs
+    _slice("slice_rescaled_profiles")
     return {"cands": list(spec["cands"]), "ballots": [dict(b, w=fs(pf(b["w"]) * factor)) for b in spec["ballots"]]}
 
 
